@@ -443,8 +443,16 @@ def execute(rng, case):
         return ry
     conts = {}
     args = []
+    xa_, xr_ = np.asarray(case["x"], dtype=float), np.asarray(case["x_ref"], dtype=float)
+    # time stamps as NumPy keeps them: whole seconds held as datetime64[s] on BOTH axes (the library converts its four
+    # arrays to float on entry, which maps a datetime64 to its tick count - the common origin of the two axes matters)
+    stamps = (not case.get("int32")) and "fixed_points_in_x" not in kw and bool(np.all(xa_ == np.round(xa_))) \
+        and bool(np.all(xr_ == np.round(xr_))) and float(max(np.max(np.abs(xa_)), np.max(np.abs(xr_)))) < 2.0 ** 52 \
+        and rng.integers(0, 3) == 0
     for name in ("x", "y", "x_ref", "y_ref"):
-        if case.get("int32") and name != "y":
+        if stamps and name in ("x", "x_ref"):
+            v, kind = np.asarray(case[name], dtype=float).astype(np.int64).astype("datetime64[s]"), "datetime64[s]"
+        elif case.get("int32") and name != "y":
             v, kind = np.asarray(case[name]).astype(np.int32), "int32 column"
         else:
             v, kind = gen.as_container(rng, case[name])
